@@ -146,6 +146,47 @@ def gen_sample_family(rng, max_samples=4, depth=3):
     return [base] + [mutate_sample(rng, base, depth) for _ in range(n - 1)]
 
 
+def gen_shared_shape(rng):
+    """one sample in which the same object shape (>= 4 keys, so that the default policies merge it) occurs at several
+    positions with variations: a value nulled, a key dropped, a value of another type, an extra key"""
+    keys = rng.sample(WORDS, k=rng.randint(4, 7))
+    base = {k: gen_atom(rng) for k in keys}
+
+    def variant():
+        v = dict(base)
+        r = rng.random()
+        k = rng.choice(keys)
+        if r < 0.3:
+            v[k] = None
+        elif r < 0.5:
+            del v[k]
+        elif r < 0.7:
+            v[k] = gen_atom(rng)
+        elif r < 0.8:
+            v["extra"] = gen_atom(rng)
+        if rng.random() < 0.3:
+            items = list(v.items())
+            rng.shuffle(items)
+            v = dict(items)
+        return v
+
+    holders = rng.sample(["x", "y", "z", "w"], k=rng.randint(2, 4))
+    out = {}
+    for h in holders:
+        r = rng.random()
+        if r < 0.4:
+            out[h] = variant()
+        elif r < 0.8:
+            out[h] = [variant() for _ in range(rng.randint(1, 3))]
+        else:
+            out[h] = {"inner": variant(), "n": 1}
+    return out
+
+
+def gen_shared_samples(rng):
+    return [gen_shared_shape(rng) for _ in range(rng.randint(1, 2))]
+
+
 # ------------------------------------------------------------------------------------------ G-ir
 ATOMS_IR = ["int", "float", "bool", "str", "null", "unknown", ["ser", "IntString"], ["ser", "FloatString"],
             ["ser", "BooleanString"], ["lit", False, ["a"]], ["lit", False, ["a", "b"]], ["lit", False, ["c"]],
